@@ -76,6 +76,10 @@ def stepTok (s : St) (tok : String) : St × String :=
           match add hashS s.heap t arg with
           | .ok (h, t', i) => (setBlock { s with heap := h } b (setTable ts tn t'), toString i)
           | .dangling => (s, "DANGLING")
+        else if k == "v" then
+          match addValue hashS s.heap t arg with
+          | .ok (h, t', i) => (setBlock { s with heap := h } b (setTable ts tn t'), toString i)
+          | .dangling => (s, "DANGLING")
         else if k == "g" then
           match arg.toNat? with
           | some i => match get s.heap t i with | some v => (s, v) | none => (s, "E")
